@@ -5,7 +5,7 @@
    frames' size fields, so the min / max frame size in STREAMINFO are the smallest / largest frame actually present
    in the byte stream. *)
 From FV Require Import Generated Model.Base Model.Rice Model.Predict Model.Component Model.Flac Model.Encoder
-  Proofs.StreamInfoP Proofs.EncodeFrameE2E Proofs.FrameSizes.
+  Proofs.StreamInfoP Proofs.EncodeFrameE2E Proofs.FrameSizes Proofs.ParseFrameCtor Proofs.ParsePrecomputed.
 Local Open Scope N_scope.
 
 Theorem C04_bounds_exact :
@@ -40,3 +40,12 @@ Theorem C04_bounds_match_decoded_frames :
        forall x, In x (map frame_size_field (s_frames s)) -> si_min_frame (s_info s) <= x <= si_max_frame (s_info s)).
 Proof. exact encoded_frame_lengths. Qed.
 Print Assumptions C04_bounds_match_decoded_frames.
+
+(* The multi-threaded path accumulates STREAMINFO from frames whose bit stream is precomputed (it measures the stored
+   bytes), the single-threaded path from count_bits of the same frames: the accumulated STREAMINFO is the same, for
+   every starting value and every list of frames whose stored bytes are their own serialisation. *)
+Theorem C04_precomputed_frames_same_bounds : forall channels bps fs i,
+  Forall (fun f => pre_coherent f /\ frame_canon channels bps (strip_frame f)) fs ->
+  fold_left update_info fs i = fold_left update_info (map strip_frame fs) i.
+Proof. exact precomputed_streaminfo_same. Qed.
+Print Assumptions C04_precomputed_frames_same_bounds.
